@@ -35,7 +35,7 @@ def pmap(fn, items, jobs=None):
     ctx = mp.get_context("fork")
     # one deadline for the whole batch: an obligation that does not come back (a solver call ignoring its timeout on a changed tree)
     # is reported as undecided instead of hanging the check
-    limit = float(os.environ.get("VERIF_OBL_TIMEOUT", "1800"))
+    limit = float(os.environ.get("VERIF_OBL_TIMEOUT", "900"))
     pool = ctx.Pool(min(jobs, len(items)))
     try:
         pending = [pool.apply_async(_worker, ((fn, it),)) for it in items]
